@@ -256,6 +256,12 @@ CHECKS["C19"]["text"] += " Prefix pools of /120 and /128 with delegation lengths
 for k in ("C04","C05","C06","C07"):
     CHECKS[k]["text"] += " Graph pool 2001:db8:0:140::/58 -> /60 (block length not a multiple of 8 bits, base with bits set in the partial octet)."
 CHECKS["C13"]["text"] += " DHCPv6 requests also arrive inside one and two Relay-Forward layers: every handler still receives the original (relayed) request."
+# ---- additions of seed round 19
+for k in ("C04","C05"):
+    CHECKS[k]["text"] += " 70 000 un-hinted allocations in a row on every pool larger than 2^17 blocks: each succeeds with a block not handed out before."
+CHECKS["C09"]["text"] += " A client's hint-less renewal after exactly k = 65533..65538 IA_PDs of another client (a 16-bit count coming round)."
+CHECKS["C15"]["text"] += " The UDP source of the request (giaddr itself from port 1067 or 67, another host from port 1067) is not part of the cascade."
+CHECKS["C17"]["text"] += " MTU values written with leading zeros are decimal."
 ALL = ["C%02d" % i for i in range(1, 21)]
 NA_REASON = "check not built yet in this session (planned, see DESIGN.md section 5); will be claimed once its machinery exists"
 m = {
